@@ -2,6 +2,7 @@
 # usage: tools/try_seed.sh <patch.diff> <prop>...   applies the patch to /repo, runs the checks, undoes it
 P="$1"; shift
 cd /verif
+export VERIF_EVIDENCE_DIR=/verif/.cache/seed_evidence; mkdir -p $VERIF_EVIDENCE_DIR
 git -C /repo apply "$P" || { echo "patch does not apply"; exit 2; }
 for pid in "$@"; do
   python3 tools/check.py "$pid" 2>&1 | grep -v "^\[check\]" | tail -3
